@@ -1,5 +1,6 @@
 import Hyeong.Lemmas.NumProof
 import Hyeong.Lemmas.BranchRule
+import Hyeong.Lemmas.NumOrder
 /-!
 # C07 — comparison of rationals is the numeric order; NaN is unordered
 (core `Rat` has no `Ord` instance, hence four iff-statements). Property theorems only.
@@ -21,6 +22,21 @@ theorem cmp_gt_iff (a b : NumI) (ha : Canon a) (hb : Canon b) :
 /-- `unordered` exactly when at least one side is NaN -/
 theorem cmp_nan_iff (a b : NumI) : cmp a b = none ↔ (isNan a = true ∨ isNan b = true) :=
   HyN.cmp_nan_iff a b
+
+/-- the comparison is a strict total order on numbers: for two numbers exactly one of `<`, `=`, `>` is answered,
+and the answer in the other direction is the mirrored one -/
+theorem cmp_trichotomy (a b : NumI) (ha : Canon a) (hb : Canon b) :
+    (cmp a b = some .lt ∧ cmp b a = some .gt) ∨ (cmp a b = some .eq ∧ cmp b a = some .eq) ∨
+    (cmp a b = some .gt ∧ cmp b a = some .lt) :=
+  HyN.cmp_trichotomy a b ha hb
+
+theorem cmp_trans (a b c : NumI) (ha : Canon a) (hb : Canon b) (hc : Canon c)
+    (h1 : cmp a b = some .lt) (h2 : cmp b c = some .lt) : cmp a c = some .lt :=
+  HyN.cmp_trans a b c ha hb hc h1 h2
+
+/-- `Equal` is answered exactly for identical fields (the canonical form of a value is unique, C06) -/
+theorem cmp_eq_same (a b : NumI) (ha : Canon a) (hb : Canon b) : cmp a b = some .eq ↔ a = b :=
+  HyN.cmp_eq_same a b ha hb
 
 /-- Consequently: in the interpreter model a `?` branch is taken (left subtree) iff the popped value is a number
 below the command's count, a `!` branch iff it is a number equal to it; every other value — in particular NaN —
